@@ -63,10 +63,7 @@ pub fn corr(run: &mut Run) {
             match catch(|| three_party(&cc, &ins, &fam.inputs, &mut rng)) {
                 Ok(Ok(r3)) => {
                     run.count_n("sends-delivered", r3.received.iter().map(|v| v.len() as u64).sum());
-                    if !fam.exact {
-                        continue;
-                    }
-                    if let Some(why) = judge3(&r3, &expected, &fam.out_type, &outs) {
+                    if let Some(why) = judge3_with(&r3, &fam.out_type, &outs, &|v| fam_close(&fam, v, &expected)) {
                         run.oracle_fail(&format!("C02:3party:{}:{}", fam.name, op0), format!("{} : {}{}", descr, why, if r3.poison_sent.is_empty() { String::new() } else { format!(" (poison sent at {:?})", &r3.poison_sent[..r3.poison_sent.len().min(3)]) }));
                         break;
                     }
